@@ -319,6 +319,33 @@ def snap_checks(ctx):
         hand = [PersLandscapeApprox(values=np.array(v, dtype=float), hom_deg=0, start=0.0, stop=3.0, num_steps=4)
                 for v in ([[0, 1, 2, 0]], [[0, -1, 1, 0], [0, 2, 0, 0]], [[0, 2, 2, 0]])]
     pool = srcs + hand
+    # sources on DECIMAL grids (step 0.1 / 0.05 / 0.2, starting a whole number of steps inside the common grid:
+    # quotients such as 0.3/0.1 = 2.9999999999999996): a copy-at-an-offset shortcut must land on the right node
+    dec = []
+    with contextlib.redirect_stdout(io.StringIO()):
+        for (s_, e_, n_) in ((0.0, 2.0, 21), (0.3, 1.3, 11), (0.7, 1.9, 13), (0.6, 2.0, 15), (0.15, 0.95, 17), (0.0, 1.0, 21), (1.2, 2.0, 5), (0.0, 2.0, 11)):
+            xs = np.linspace(s_, e_, n_)
+            vals = np.maximum(0.0, np.minimum(xs - s_, e_ - xs))          # a tent over the whole source grid (edges 0)
+            vals2 = np.maximum(0.0, 0.5 * np.minimum(xs - s_, e_ - xs) - 0.05)
+            dec.append(PersLandscapeApprox(values=np.array([vals, vals2]), hom_deg=0, start=s_, stop=e_, num_steps=n_))
+    for a in range(len(dec)):
+        for b in range(len(dec)):
+            pls = [dec[a], dec[b]]
+            for kw in ({}, {"start": 0.0, "stop": 2.0, "num_steps": 21}, {"start": 0.0, "stop": 2.0, "num_steps": 41}):
+                start = kw.get("start", min(p.start for p in pls))
+                stop = kw.get("stop", max(p.stop for p in pls))
+                num = kw.get("num_steps", max(p.num_steps for p in pls))
+                target = np.linspace(start, stop, num)
+                ctx.state(("snap-decimal", a, b, sorted(kw.items())))
+                out = ctx.call(snap_pl, pls, **kw)
+                ctx.valid()
+                if len(out) != 2:
+                    ctx.violation("snap_pl", "snap_pl must return one landscape per input", observed=len(out))
+                    continue
+                for o, p_ in zip(out, pls):
+                    vals_equal(ctx, "snap_pl-decimal-grid", o, interp_ref(p_, target), (start, stop, num), "snap_pl on decimal grids", {"operands": [a, b], "kw": kw})
+                pa, pb = pad(interp_ref(pls[0], target), interp_ref(pls[1], target))
+                vals_equal(ctx, "lc_approx-decimal-grid", ctx.call(lc_approx, pls, [2.0, -0.5], **kw), 2.0 * pa - 0.5 * pb, (start, stop, num), "lc_approx on decimal grids", {"operands": [a, b], "kw": kw})
     import itertools
 
     # landscapes of different homological degree cannot be combined, on whatever grids they live
